@@ -3,7 +3,7 @@
    filtering, reducing, nested windows, nested tees), every join mode and every item sequence. *)
 From Coq Require Import List ZArith Bool.
 From RxVerif Require Import Mux.Val Mux.Sim Mux.SimExt Mux.Ops Mux.Syntax Mux.LocalSemProofs Mux.TeeSpecProofs
-  Mux.MasterProofs.
+  Mux.OpsSpecProofs Mux.MasterProofs Mux.Plain Mux.PlainTimed Mux.PlainTimedProofs.
 Import ListNotations.
 
 (* slot level: with cells at key[0]*n + i in one shared queue, the tee refines the per-key product of
@@ -46,6 +46,20 @@ Theorem C08_join_combine_latest : forall i v c, special v = false ->
   ljoin_next item Combine mk_tuple special i v c = let c1 := set_nth i (Some v) None c in (c1, [mk_tuple c1]).
 Proof. intros. now apply join_combine. Qed.
 Print Assumptions C08_join_combine_latest.
+
+(* tee_map on a PLAIN observable, as list functions (PlainTimed.tee_join: the join folded over the source
+   items of the branches' own timed plain outputs, then over their completion outputs), is what the
+   per-key local machine of the multiplexed tee_map emits, step by step; branches are arbitrary pipelines of
+   the timed plain fragment, nested tees included *)
+Theorem C08_plain_tee_equals_keyed_tee : forall (mode : jmode) (p : list op) (bs : list (list op)) (xs : list val) (rs : list timed),
+  pbranches (p :: bs) xs = Some rs ->
+  ltimed item (bl item (den (OTee mode (p :: bs)))) (its xs)
+  = (map its (fst (tee_join mode xs rs)), its (snd (tee_join mode xs rs))).
+Proof.
+  intros mode p bs xs rs H. apply (all_ops_ts (OTee mode (p :: bs)) xs (tee_join mode xs rs)).
+  rewrite ptimed_op_tee, H. reflexivity.
+Qed.
+Print Assumptions C08_plain_tee_equals_keyed_tee.
 
 Example C08_example :
   ltimed item (bl item (den (OTee Zip [[OFilter FIsOdd]; [OMap (FMul (VInt 10))]])))
